@@ -4,6 +4,7 @@ package ledger
 // coins from the LEDGER's view, never from gocoin's.
 
 import (
+	"fmt"
 	"bytes"
 	"math/big"
 	"sort"
@@ -23,7 +24,7 @@ type Rand interface {
 // Grind finds a nonce satisfying the block's own bits.
 func Grind(h *Header) {
 	t, _, _ := CompactToBig(h.Bits)
-	for {
+	for n := 0; ; n++ {
 		hh := h.Hash()
 		var be [32]byte
 		for i := range hh {
@@ -33,6 +34,9 @@ func Grind(h *Header) {
 			return
 		}
 		h.Nonce++
+		if n == 1<<22 {
+			panic(fmt.Sprintf("Grind: target of bits %08x is out of reach for a simulated miner", h.Bits))
+		}
 	}
 }
 
@@ -278,8 +282,10 @@ func (m *Miner) Build(parent *Node, o BlockOpts) (b *Block, ok bool) {
 	if o.ViewFrom != nil {
 		viewNode = o.ViewFrom
 	}
-	for k, v := range viewNode.UTXO() {
-		view[k] = v
+	if o.NTx > 0 || o.Viol != "" {
+		for k, v := range viewNode.UTXO() {
+			view[k] = v
+		}
 	}
 	used := map[OutPoint]bool{}
 	var fees uint64
@@ -644,6 +650,9 @@ func (m *Miner) Build(parent *Node, o BlockOpts) (b *Block, ok bool) {
 		b.H.Time = mtp + 1
 	}
 	b.H.Bits = m.L.ExpectedBits(parent, b.H.Time)
+	if t, neg, ovf := CompactToBig(b.H.Bits); neg || ovf || t.Sign() == 0 || t.BitLen() < 236 {
+		return nil, false // (the child of a block with an unusable target) nothing a simulated miner can satisfy
+	}
 	m.Finish(parent, b)
 	return b, true
 }
@@ -683,7 +692,30 @@ func (m *Miner) MutateC05(parent *Node, b *Block, kind string, now int64) bool {
 		b.H.Nonce = 0
 		GrindAbove(&b.H)
 	case "bits-wrong":
-		b.H.Bits = []uint32{0x207ffffe, 0x1f7fffff, 0x2000ffff}[m.R.Intn(3)]
+		want := m.L.ExpectedBits(parent, b.H.Time)
+		cands := []uint32{0x207ffffe, 0x1f7fffff, 0x2000ffff, parent.Bits, p.PowLimitBits, want + 1, want - 1}
+		if t, neg, ovf := CompactToBig(want); !neg && !ovf && t.Sign() > 0 {
+			// the target a wrong timespan clamp, a skipped or a doubled adjustment would give
+			lim, _, _ := CompactToBig(p.PowLimitBits)
+			for _, f := range [][2]int64{{4, 1}, {1, 4}, {2, 1}, {1, 2}, {16, 1}} {
+				x := new(big.Int).Mul(t, big.NewInt(f[0]))
+				x.Div(x, big.NewInt(f[1]))
+				if x.Cmp(lim) > 0 {
+					x = lim
+				}
+				cands = append(cands, BigToCompact(x))
+			}
+		}
+		var ok []uint32
+		for _, c := range cands {
+			if t, neg, ovf := CompactToBig(c); c != want && !neg && !ovf && t.Sign() > 0 && t.BitLen() >= 236 {
+				ok = append(ok, c)
+			}
+		}
+		if len(ok) == 0 {
+			return false
+		}
+		b.H.Bits = ok[m.R.Intn(len(ok))]
 		b.H.Nonce = 0
 		Grind(&b.H)
 	case "bits-negative":
